@@ -118,7 +118,7 @@ def run_unit(job):
     # from Python (seen once: a worker at 100 % CPU for 20 minutes in a check that normally takes 10 s).  The worker then
     # kills itself; run_jobs retries the unit in a fresh process and reports a checker error (exit 3) if it dies again.
     import threading
-    limit = float(os.environ.get("PYVC_UNIT_LIMIT") or (3600 if os.environ.get("PYVC_TIER") == "thorough" else 900))
+    limit = float(os.environ.get("PYVC_UNIT_LIMIT") or (1500 if os.environ.get("PYVC_TIER") == "thorough" else 600))
     killer = threading.Timer(limit, os._exit, args=(78,))
     killer.daemon = True
     killer.start()
